@@ -177,12 +177,32 @@ def simp(t):
         return FALSE
     if k == 'eq' and t[1][0] in ('const', 'lit') and t[2][0] in ('const', 'lit'):
         return TRUE if t[1] == t[2] else FALSE
+    if (k == 'binop' and t[1] == 'Add' and (t[2][0] in ('list', 'filtermap', 'listcat') or t[3][0] in ('list', 'filtermap', 'listcat'))) \
+            or k == 'listcat':
+        return mk_listcat([simp(x) for x in t[1]] if k == 'listcat' else [t[2], t[3]])
     return t
+
+
+def mk_listcat(xs):
+    """list concatenation in one spelling: flattened, empty literals dropped (`[] + xs` is a copy of xs)"""
+    parts = []
+    for x in xs:
+        if x[0] == 'listcat':
+            parts.extend(x[1])
+        elif x[0] == 'list' and len(x) == 2 and x[1] == ():
+            continue
+        else:
+            parts.append(x)
+    if not parts:
+        return ('list', ())
+    if len(parts) == 1:
+        return parts[0]
+    return ('listcat', tuple(parts))
 
 
 def _is_strish(t) -> bool:
     return (t[0] == 'lit' and t[1] == 'str') or t[0] in ('concat', 'fstr') or \
-        (t[0] == 'call' and t[1] == 'str')
+        (t[0] == 'call' and t[1] == 'str') or (t[0] == 'str' and len(t) == 2)
 
 
 def mk_concat(parts):
@@ -198,6 +218,8 @@ def mk_concat(parts):
             flat.extend(x[1])
         elif x[0] == 'call' and x[1] == 'str' and len(x) > 2 and len(x[2]) == 1:
             flat.append(x[2][0])
+        elif x[0] == 'str' and len(x) == 2:
+            flat.append(x[1])
         else:
             flat.append(x)
     out = []
@@ -227,6 +249,10 @@ def _self_extension(cur, val):
             and isinstance(val[3], tuple) and val[3] and val[3][0] == 'list' \
             and not any(isinstance(x, tuple) and x and x[0] == 'star' for x in val[3][1]):
         return list(val[3][1])
+    if isinstance(val, tuple) and val and val[0] == 'listcat' and len(val[1]) == 2 and is_cur(val[1][0]) \
+            and isinstance(val[1][1], tuple) and val[1][1] and val[1][1][0] == 'list' \
+            and not any(isinstance(x, tuple) and x and x[0] == 'star' for x in val[1][1][1]):
+        return list(val[1][1][1])
     if isinstance(val, tuple) and val and val[0] == 'list' and val[1] and isinstance(val[1][0], tuple) \
             and val[1][0] and val[1][0][0] == 'star' and is_cur(val[1][0][1]) \
             and not any(isinstance(x, tuple) and x and x[0] == 'star' for x in val[1][1:]):
@@ -566,6 +592,21 @@ class Extractor:
                         elif x:
                             parts.append(lit(x))
                     return mk_concat(parts)
+            if isinstance(e.op, ast.Add) and (l[0] in ('list', 'filtermap', 'listcat') or r[0] in ('list', 'filtermap', 'listcat')):
+                # list concatenation in one spelling: flattened, empty literals dropped (`[] + xs` is a copy of xs)
+                parts = []
+                for x in (l, r):
+                    if x[0] == 'listcat':
+                        parts.extend(x[1])
+                    elif x[0] == 'list' and len(x) == 2 and x[1] == ():
+                        continue
+                    else:
+                        parts.append(x)
+                if not parts:
+                    return ('list', ())
+                if len(parts) == 1:
+                    return parts[0]
+                return ('listcat', tuple(parts))
             if isinstance(e.op, ast.Add) and l[0] == 'lit' and r[0] == 'lit' and l[1] == 'str' and r[1] == 'str':
                 import ast as _a
                 return lit(_a.literal_eval(l[2]) + _a.literal_eval(r[2]))
@@ -588,6 +629,12 @@ class Extractor:
             return FALSE if t[2] in ('0', '0.0', "''") else TRUE
         if t[0] == 'first':
             return mk_any(t[1], t[2])      # the first match exists iff some element matches
+        if t[0] == 'call' and t[1] == 'getattr' and len(t) > 2 and len(t[2]) == 3 and t[2][1][0] == 'lit' \
+                and t[2][1][1] == 'str' and t[2][2] == ('const', None):
+            # truth of getattr(x, 'f', None): the attribute exists and is truthy
+            import ast as _a
+            return mk_and(('call', 'hasattr', (t[2][0], t[2][1])),
+                          self.truth(('attr', t[2][0], _a.literal_eval(t[2][1][2]))))
         if _empty_container(t):
             return FALSE
         if not is_formula(t) and _find_ite(t) is not None:
@@ -1522,7 +1569,7 @@ def resolve_fresh(q):
     q2.effects = effs
     q2.cond = _subst_many(q.cond, sub)
     if q.ret is not None:
-        q2.ret = _subst_many(q.ret, sub)
+        q2.ret = simp(_subst_many(q.ret, sub))
     return q2
 
 
@@ -1891,6 +1938,8 @@ def show(t, depth=0) -> str:
         return f'[{show(t[2])} for ' + ' for '.join(f'x in {show(c)} if {show(cond)}' for c, cond in t[1]) + ']'
     if k == 'global':
         return t[1]
+    if k == 'listcat':
+        return ' ++ '.join(show(x) for x in t[1])
     return k + '(' + ', '.join(show(x) if isinstance(x, tuple) else repr(x) for x in t[1:]) + ')'
 
 
@@ -1990,7 +2039,7 @@ def _fresh_container(t) -> bool:
     if _is_new(t):
         return True
     return isinstance(t, tuple) and bool(t) and (
-        t[0] in ('list', 'dict', 'dictcomp', 'filtermap') or
+        t[0] in ('list', 'dict', 'dictcomp', 'filtermap', 'listcat') or
         (t[0] == 'call' and t[1] in ('set', 'dict', 'list', 'tuple', 'frozenset', 'defaultdict', 'Counter')))
 
 
